@@ -498,7 +498,13 @@ def snapshot_provenance(run, model, rule):
                             exprs = [st.value for st in ast.walk(fi.node) if isinstance(st, ast.Assign) and any(isinstance(tg, ast.Name) and tg.id == p.ast.id for tg in st.targets)] or [p.ast]
                         def by_identity(e):
                             # identity of the snapshot objects themselves -- not of something they share (two
-                            # different snapshots may well use one capture function or one location)
+                            # different snapshots may well use one capture function or one location) -- and nothing
+                            # but identity: ``a is b or <same name and same capture>`` also skips *different* objects
+                            core = e
+                            if isinstance(core, ast.Call) and isinstance(core.func, ast.Name) and core.func.id == "any" and len(core.args) == 1 and isinstance(core.args[0], (ast.GeneratorExp, ast.ListComp)):
+                                core = core.args[0].elt
+                            if isinstance(core, ast.BoolOp) and isinstance(core.op, ast.Or):
+                                return False
                             for c in ast.walk(e):
                                 if isinstance(c, ast.Compare) and len(c.ops) == 1 and isinstance(c.ops[0], ast.Is) and isinstance(c.left, ast.Name) and isinstance(c.comparators[0], ast.Name):
                                     return True
